@@ -3,6 +3,7 @@ import OapiVerif.Gen.C01
 import OapiVerif.Proofs.Comment
 import OapiVerif.Proofs.RefPath
 import OapiVerif.Proofs.TypeDedup
+import OapiVerif.Model.OpId
 /-!
 C01 — Generated code compiles, for every supported spec and configuration.
 
@@ -278,3 +279,70 @@ example : construct [(s "b.yaml", s "x/pkg"), (s "a.yaml", s "x/pkg"), (s "c.yam
      (s "c.yaml", s "externalRef2", s "x/zzz"), (s "d.yaml", s "externalRef0", s "a/pkg")] := by decide
 
 end OapiVerif.TypeDedup
+
+namespace OapiVerif.OpId
+
+theorem checkIds_spec : ∀ (ids seen : List Str), seen.Nodup →
+    (checkIds ids seen = .ok () → (ids.reverse ++ seen).Nodup) ∧
+    (∀ e, checkIds ids seen = .error e → e ∈ ids ∧ (e ∈ seen ∨ 2 ≤ ids.count e)) := by
+  intro ids
+  induction ids with
+  | nil => intro seen h; simp [checkIds, h]
+  | cons i rest ih =>
+    intro seen hs
+    simp only [checkIds]
+    by_cases hc : seen.contains i = true
+    · simp only [hc, if_true]
+      refine ⟨fun h => (by cases h), ?_⟩
+      intro e he
+      simp only [Except.error.injEq] at he
+      subst he
+      exact ⟨List.mem_cons_self, Or.inl (by simpa using hc)⟩
+    · simp only [hc, Bool.false_eq_true, if_false]
+      have hni : i ∉ seen := by simpa using hc
+      have hs' : (i :: seen).Nodup := List.nodup_cons.mpr ⟨hni, hs⟩
+      obtain ⟨h1, h2⟩ := ih (i :: seen) hs'
+      constructor
+      · intro h
+        have := h1 h
+        simpa [List.reverse_cons, List.append_assoc] using this
+      · intro e he
+        obtain ⟨hm, hor⟩ := h2 e he
+        refine ⟨List.mem_cons_of_mem _ hm, ?_⟩
+        rcases hor with hin | hcnt
+        · rcases List.mem_cons.mp hin with e1 | e2
+          · right
+            subst e1
+            have : 1 ≤ rest.count e := List.count_pos_iff.mpr hm
+            simp only [List.count_cons_self]; omega
+          · exact Or.inl e2
+        · right
+          by_cases e1 : i = e
+          · subst e1; simp only [List.count_cons_self]; omega
+          · have e1' : (i == e) = false := by simpa using e1
+            simp only [List.count_cons, e1', Bool.false_eq_true, if_false, Nat.add_zero]; exact hcnt
+
+/-- **No two operations of a generated file share an identifier**: when the check of `OperationDefinitions` lets a document
+through, the identifiers of its operations are pairwise distinct; when it refuses, the identifier it names belongs to two of
+them. For every list of identifiers. -/
+theorem C01_operation_ids_distinct_or_refused (ids : List Str) :
+    (checkIds ids [] = .ok () → ids.Nodup) ∧ (∀ e, checkIds ids [] = .error e → 2 ≤ ids.count e) := by
+  obtain ⟨h1, h2⟩ := checkIds_spec ids [] (by simp)
+  constructor
+  · intro h
+    have := h1 h
+    simp only [List.append_nil] at this
+    exact (List.reverse_perm ids).nodup_iff.mp this
+  · intro e he
+    rcases (h2 e he).2 with h | h
+    · cases h
+    · exact h
+
+/-- The input of the repaired defect (C01 witness `two-operations-one-default-id`, replayed on the code): `GET /a/b` and
+`GET /a-b` have one default id whatever the name normaliser does afterwards, and so have paths that differ in empty segments. -/
+theorem C01_default_id_collision_witness :
+    rawDefaultId [71, 69, 84] [47, 97, 47, 98] = rawDefaultId [71, 69, 84] [47, 97, 45, 98] ∧
+    rawDefaultId [71, 69, 84] [47, 97, 47, 98] = rawDefaultId [71, 69, 84] [47, 97, 47, 47, 98, 47] ∧
+    checkIds [[71], [72], [71]] [] = .error [71] := by decide
+
+end OapiVerif.OpId
